@@ -28,26 +28,29 @@ def show_loc(l):
 
 def decode(d, nsets, fallible):
     k = d % 8
-    tgt = (d // 8) % nsets if nsets else None
+    tgt = ((d // 8) % 8) % nsets if nsets else None
     if not fallible:
         k = 2 if k == 6 else 5 if k == 7 else k
     if not nsets:
         k = {3: 0, 4: 1, 5: 2, 7: 6}.get(k, k)
+    extra_reset = (d // 64) % 2 == 1
     if k == 0:
-        return (False, None, 0)
-    if k == 1:
-        return (True, None, 0)
-    if k == 2:
-        return (False, None, 1)
-    if k == 3:
-        return (False, tgt, 0)
-    if k == 4:
-        return (True, tgt, 0)
-    if k == 5:
-        return (False, tgt, 1)
-    if k == 6:
-        return (False, None, 2)
-    return (False, tgt, 2)
+        r = (False, None, 0)
+    elif k == 1:
+        r = (True, None, 0)
+    elif k == 2:
+        r = (False, None, 1)
+    elif k == 3:
+        r = (False, tgt, 0)
+    elif k == 4:
+        r = (True, tgt, 0)
+    elif k == 5:
+        r = (False, tgt, 1)
+    elif k == 6:
+        r = (False, None, 2)
+    else:
+        r = (False, tgt, 2)
+    return (r[0] or extra_reset, r[1], r[2])
 
 
 def has_word(r):
